@@ -186,10 +186,15 @@ def run(ck):
             held_auth = None
             if phase == 'p2-half-open':
                 sim.acquire(p2, 0, sport=6100)
-                sim.deliver(0)          # hub answers IKE_SA_INIT
-                if rnd % 2 and sim.net:
-                    sim.deliver(0)      # ... P2 sends IKE_AUTH, which stays in flight while the hostile events arrive
-                    held_auth = sim.net[0].data if sim.net else None
+                sim.deliver(0)          # hub answers IKE_SA_INIT (with a COOKIE demand first when earlier floods left half-open IKE_SAs behind)
+                if rnd % 2:
+                    for _ in range(6):
+                        if not sim.net or sim.net[0].data[18] != 34:
+                            break
+                        sim.deliver(0)  # ... until P2 has sent IKE_AUTH, which stays in flight while the hostile events arrive
+                    held_auth = sim.net[0].data if (sim.net and sim.net[0].data[18] == 35) else None
+                    if held_auth is not None:
+                        ck.count('concurrent_session.ike_auth_held_in_flight')
             elif phase == 'p2-established':
                 sim.drain()
                 # the legitimate session that was in progress while the hostile datagrams arrived must have completed
@@ -218,7 +223,7 @@ def run(ck):
                 corpus.append(('random', gen.rb(rng, ln)))
             init = codec.encode_clear(dict(bases['ike_sa_init'], spi_r=b'\0' * 8))
             fields = gen.locate_chain(init[28:], init[16], base=28)
-            grid = list(gen.grid_variants(init, fields)) + list(gen.pair_variants(init, fields, first_type_off=16))
+            grid = list(gen.grid_variants(init, fields)) + list(gen.pair_variants(init, fields, first_type_off=16)) + list(gen.substructure_pairs(init, fields))
             for dsc, d in rng.sample(grid, min(len(grid), 260 if not ck.thorough() else 1500)):
                 corpus.append((f'grid.{dsc[0]}', d))
             for t in gen.truncations(init, step=5):
@@ -259,7 +264,7 @@ def run(ck):
                     inner_raw = codec.enc_chain(m['payloads'])
                     first = m['payloads'][0]['type']
                     ifields = gen.locate_chain(inner_raw, first)
-                    variants = list(gen.grid_variants(inner_raw, ifields)) + list(gen.pair_variants(inner_raw, ifields))
+                    variants = list(gen.grid_variants(inner_raw, ifields)) + list(gen.pair_variants(inner_raw, ifields)) + list(gen.substructure_pairs(inner_raw, ifields))
                     for dsc, vv in rng.sample(variants, min(len(variants), 40 if not ck.thorough() else 300)):
                         todo.append((f'authentic.grid.{dsc[0]}', m['exch'], vv, first))
                 for cls, pls, ex in [
@@ -845,6 +850,7 @@ def verdict(ck):
     ck.floor('steps that came back to select', c['steps.back_to_select'], 4000)
     ck.floor('bystander checks', c['bystander.checks'], 20)
     ck.floor('legitimate handshakes in progress during the hostile events that completed afterwards', c['concurrent_session.completed'], 5)
+    ck.floor('of these, with the IKE_AUTH request held in flight (corrupted copies of it among the hostile events)', c['concurrent_session.ike_auth_held_in_flight'], 3)
     ck.floor('authentic-but-malformed steps', sum(v for k, v in c.items() if k.startswith('hostile.authentic')), 300)
     ck.floor('kernel oddities', sum(v for k, v in c.items() if k.startswith('hostile.kernel')), 100)
     ck.floor('sendto faults', c['faults.sendto'], 20)
